@@ -3,7 +3,7 @@ Plain data types of C05, shared by the model (`Model/Runtime.lean`), the specifi
 and the driver. No functions with behaviour live here. Core Lean only.
 
 `Invocation` is the finite product of the property's quantifier (executable name × argument count × buildpack.toml
-state × presence of each `CNB_*` variable × buildpack behaviour × pre-existing output files), extended by the other
+state × each `CNB_*` variable unset or set to some value × buildpack behaviour × pre-existing output files), extended by the other
 sources of a phase error (working directory, platform directory, buildpack-plan file). The payloads the buildpack
 hands back (build plan `P`, launch `L`, store `S`, SBOM data `D`) are type parameters: the decision logic never looks
 inside them.
@@ -28,14 +28,26 @@ inductive Desc
   | notToml        -- not TOML at all
 deriving DecidableEq, Repr
 
-/-- presence of the `CNB_*` variables the runtime reads -/
+/-- the value of an environment variable as the process sees it: text (valid Unicode - what `env::var` hands out as a
+`String`; any text, the empty string included) or bytes that are not valid UTF-8 (`VarError::NotUnicode`) -/
+inductive EnvVal
+  | text (s : String)
+  | raw (bytes : List Nat)
+deriving DecidableEq, Repr
+
+/-- the `CNB_*` variables the runtime reads. Each one is unset (`none`) or set to a value (`some v`): the environment is a
+dimension of the invocation with its *values*, not only with presence bits. -/
 structure Vars where
-  bpDir : Bool     -- CNB_BUILDPACK_DIR
-  os : Bool        -- CNB_TARGET_OS
-  arch : Bool      -- CNB_TARGET_ARCH
-  variant : Bool   -- CNB_TARGET_ARCH_VARIANT (optional)
-  dname : Bool     -- CNB_TARGET_DISTRO_NAME
-  dver : Bool      -- CNB_TARGET_DISTRO_VERSION
+  bpDir : Option EnvVal     -- CNB_BUILDPACK_DIR
+  os : Option EnvVal        -- CNB_TARGET_OS
+  arch : Option EnvVal      -- CNB_TARGET_ARCH
+  variant : Option EnvVal   -- CNB_TARGET_ARCH_VARIANT (optional)
+  dname : Option EnvVal     -- CNB_TARGET_DISTRO_NAME
+  dver : Option EnvVal      -- CNB_TARGET_DISTRO_VERSION
+deriving DecidableEq, Repr
+
+/-- names of the variables, for the generated list of reads (`Gen/Runtime.lean`) -/
+inductive VarName | bpDir | os | arch | variant | dname | dver
 deriving DecidableEq, Repr
 
 /-- platform directory: readable / no `env` sub-directory (tolerated) / unreadable (a non-UTF-8 file in `env`) -/
@@ -103,6 +115,19 @@ deriving DecidableEq, Repr
 inductive ErrKind
   | appDir | bpDir | descriptor | platform | planIn | store | targetOs | targetArch | distroName | distroVersion
   | buildpack | layer | writePlan | writeLaunch | writeStore | writeBuildSbom | writeLaunchSbom
+deriving DecidableEq, Repr
+
+/-- what the code does with the result of one `env::var(NAME)` call (regenerated from the source by the translator):
+* `required k`  — `env::var(NAME).map_err(Error::<k>)?`: unset or not Unicode ⇒ the phase ends with error `k`, whatever any
+  other variable holds;
+* `optionalOk`  — `env::var(NAME).ok()`: unset or not Unicode ⇒ `None`, never an error;
+* `defaulted d` — `env::var(NAME).unwrap_or…(d)`: unset or not Unicode ⇒ the text `d`, never an error.
+Any other shape (a requirement that depends on another variable's value, a `match`, …) has no constructor here: the
+translator reports it as a broken tie instead. -/
+inductive EnvUse
+  | required (k : ErrKind)
+  | optionalOk
+  | defaulted (d : String)
 deriving DecidableEq, Repr
 
 structure Outcome (P L S D : Type) where
